@@ -12,6 +12,7 @@ import (
 	"sort"
 	"strings"
 	"sync"
+	"sync/atomic"
 	"time"
 
 	"github.com/sahandsafizadeh/qeep/component/initializers"
@@ -79,6 +80,8 @@ type c20pool struct {
 	}
 	mse  *losses.MSE
 	opt  *optimizers.SGD // one optimizer object shared by all goroutines, each stepping only its private tensors
+	pair [2]int          // two same-shape untracked pool tensors used in both operand orders
+	res  []int           // pool tensors that are results of earlier operations
 	D, O int
 }
 
@@ -141,6 +144,62 @@ func c20BuildPool(r *rand.Rand) (*c20pool, error) {
 			h.Data[i] *= math.Pow(10, float64(r.Intn(13)-6))
 		}
 		add(h, rt.MustLeaf(h, false), "huge-untracked-leaf")
+	}
+	// shared tensors that are RESULTS of earlier operations (reducers over a middle dimension of a rank-4/5 tensor, a rank-5
+	// MatMul, Slice, Reshape, Transpose, Concat, Broadcast): whatever those operations left in them (slices with spare capacity,
+	// cached counts, flags) is now read and extended by many goroutines at once
+	{
+		v4 := Shuffled(r, Unique(r, []int{2, 2, 3, 2}, 0.2, 1.5))
+		t4 := rt.MustLeaf(v4, false)
+		for _, d := range []struct {
+			in ref.Instr
+		}{{ref.Instr{Op: "sumalong", Dim: 2}}, {ref.Instr{Op: "maxalong", Dim: 1}}, {ref.Instr{Op: "varalong", Dim: 2}}, {ref.Instr{Op: "meanalong", Dim: 0}},
+			{ref.Instr{Op: "slice", Index: []ref.Range{{From: 0, To: 1}, {From: 1, To: 2}}}}, {ref.Instr{Op: "reshape", Shape: []int{4, 6}}},
+			{ref.Instr{Op: "transpose"}}, {ref.Instr{Op: "squeeze", Dim: 0, In: nil}}, {ref.Instr{Op: "flatten", Dim: 2}}, {ref.Instr{Op: "unsqueeze", Dim: 2}}} {
+			if d.in.Op == "squeeze" {
+				continue // no size-1 dimension here
+			}
+			rv, err := ref.Apply(d.in, []*ref.T{v4})
+			if err != nil {
+				return nil, err
+			}
+			rr, err := rt.Exec(d.in, []tensor.Tensor{t4})
+			if err != nil {
+				return nil, err
+			}
+			p.res = append(p.res, len(p.ts))
+			add(rv, rr, "untracked-leaf")
+		}
+		a5 := Shuffled(r, Unique(r, []int{1, 2, 1, 2, 3}, 0.2, 1.5))
+		b5 := Shuffled(r, Unique(r, []int{1, 2, 1, 3, 2}, 0.2, 1.5))
+		mv, err := ref.Apply(ref.Instr{Op: "matmul"}, []*ref.T{a5, b5})
+		if err != nil {
+			return nil, err
+		}
+		mr, err := rt.MustLeaf(a5, false).MatMul(rt.MustLeaf(b5, false))
+		if err != nil {
+			return nil, err
+		}
+		p.res = append(p.res, len(p.ts))
+		add(mv, mr, "untracked-leaf")
+		cv, _ := ref.Apply(ref.Instr{Op: "concat", Dim: 0}, []*ref.T{p.vals[3], p.vals[4]})
+		cr, err := tensor.Concat([]tensor.Tensor{rt.MustLeaf(p.vals[3], false), rt.MustLeaf(p.vals[4], false)}, 0)
+		if err != nil {
+			return nil, err
+		}
+		add(cv, cr, "untracked-leaf")
+		bv, _ := ref.Apply(ref.Instr{Op: "broadcast", Shape: []int{2, 2, 3}}, []*ref.T{p.vals[5]})
+		br, err := rt.MustLeaf(p.vals[5], false).Broadcast([]int{2, 2, 3})
+		if err != nil {
+			return nil, err
+		}
+		add(bv, br, "untracked-leaf")
+	}
+	// two same-shape untracked tensors that goroutines pass DIRECTLY to two-operand operations in opposite orders
+	for q := 0; q < 2; q++ {
+		v := Shuffled(r, Unique(r, []int{2, 3}, 0.2, 1.5))
+		p.pair[q] = len(p.ts)
+		add(v, rt.MustLeaf(v, false), "untracked-leaf")
 	}
 	p.D, p.O = 3, 2
 	w, b := RandT(r, []int{p.O}, -1, 1), RandT(r, []int{p.O}, -1, 1)
@@ -228,6 +287,10 @@ func c20GenJobs(r *rand.Rand, p *c20pool, n int) []c20job {
 					break
 				}
 			}
+		case q == 6 && r.Intn(3) == 0:
+			jobs = append(jobs, c20job{kind: "opposite-order", seed: r.Int63(), a: p.pair[0], b: p.pair[1]})
+		case q == 6 && r.Intn(2) == 0:
+			jobs = append(jobs, c20job{kind: "shape-ops-on-a-shared-result", a: p.res[r.Intn(len(p.res))]})
 		case q == 6:
 			jobs = append(jobs, c20job{kind: "layer", seed: r.Int63()})
 		case q == 7 || q == 8:
@@ -270,6 +333,7 @@ func c20Run(p *c20pool, jobs []c20job, inject *rand.Rand, start time.Time, rec *
 			t0 = time.Since(start)
 		}
 		e := f()
+		c20Progress.Add(1)
 		if rec != nil {
 			*rec = append(*rec, c20span{entry, operands, t0, time.Since(start)})
 		}
@@ -304,6 +368,65 @@ func c20Run(p *c20pool, jobs []c20job, inject *rand.Rand, start time.Time, rec *
 			for _, r := range rs {
 				if e := hashBits(&out, r); e != nil {
 					return out, e
+				}
+			}
+		case "shape-ops-on-a-shared-result": // every shape operation, at every position, on a shared tensor that earlier operations produced
+			t := p.ts[j.a]
+			shape := p.vals[j.a].Shape
+			rank := len(shape)
+			var ins []ref.Instr
+			for d := 0; d <= rank; d++ {
+				ins = append(ins, ref.Instr{Op: "unsqueeze", Dim: d})
+			}
+			for d := 0; d < rank; d++ {
+				ins = append(ins, ref.Instr{Op: "flatten", Dim: d}, ref.Instr{Op: "sumalong", Dim: d})
+				if shape[d] == 1 {
+					ins = append(ins, ref.Instr{Op: "squeeze", Dim: d})
+				}
+			}
+			ins = append(ins, ref.Instr{Op: "reshape", Shape: []int{ref.Prod(shape)}}, ref.Instr{Op: "broadcast", Shape: append([]int{2}, shape...)},
+				ref.Instr{Op: "slice", Index: []ref.Range{{From: 0, To: 1}}})
+			if rank >= 2 {
+				ins = append(ins, ref.Instr{Op: "transpose"})
+			}
+			for _, in := range ins {
+				var res tensor.Tensor
+				if e := span(in.Op+"(shared result)", []int{j.a}, func() (err error) { res, err = rt.Exec(in, []tensor.Tensor{t}); return }); e != nil {
+					return out, fmt.Errorf("%s on shared result %d of shape %v: %w", in.Op, j.a, shape, e)
+				}
+				if e := hashBits(&out, res); e != nil {
+					return out, e
+				}
+			}
+		case "opposite-order": // the same two shared tensors as direct operands, in an order that differs between goroutines
+			a, b := p.ts[j.a], p.ts[j.b]
+			ia, ib := j.a, j.b
+			if j.seed%2 == 0 {
+				a, b, ia, ib = b, a, ib, ia
+			}
+			for it := 0; it < 120; it++ {
+				var rs [4]tensor.Tensor
+				if e := span("ElMax/ElMin/Patch/Concat(direct operands)", []int{ia, ib}, func() (err error) {
+					if rs[0], err = a.ElMax(b); err != nil {
+						return
+					}
+					if rs[1], err = a.ElMin(b); err != nil {
+						return
+					}
+					if rs[2], err = a.Patch(nil, b); err != nil {
+						return
+					}
+					rs[3], err = tensor.Concat([]tensor.Tensor{a, b}, 0)
+					return
+				}); e != nil {
+					return out, e
+				}
+				if it%40 == 0 {
+					for _, r := range rs {
+						if e := hashBits(&out, r); e != nil {
+							return out, e
+						}
+					}
 				}
 			}
 		case "huge-elementwise":
@@ -568,7 +691,9 @@ func runC20(c *fw.Ctx) {
 				}(g)
 			}
 			close(startCh)
+			stop := c20StallMonitor(fmt.Sprintf("case %d (G=%d, GOMAXPROCS=%d)", k.Index, G, P))
 			wg.Wait()
+			close(stop)
 			for g, e := range errs {
 				if e != nil {
 					k.Failf("goroutine %d of %d (GOMAXPROCS %d): %v", g, G, P, e)
@@ -634,6 +759,63 @@ func runC20(c *fw.Ctx) {
 			}
 		})
 	}
+}
+
+// c20Progress counts completed library calls of the concurrent phase.
+var c20Progress atomic.Int64
+
+// c20StallMonitor is the deadlock monitor. It looks (every 2 s) whether the goroutines still complete calls. Only after
+// 10 consecutive looks without a single completed call does it take a dump of all goroutines, and it reports a deadlock only
+// if that dump shows at least two goroutines BLOCKED in a synchronisation primitive (mutex, semaphore, channel, condition)
+// with a frame of the library on their stack. A slow or descheduled machine does not produce that state (the unchanged library
+// has no locks or channels at all), so the verdict rests on the observed blocked state, not on elapsed time; elapsed time only
+// decides when to look. The process then exits: the parent reports the dying child, with this output, as the witness.
+func c20StallMonitor(what string) chan struct{} {
+	stop := make(chan struct{})
+	go func() {
+		last, still := c20Progress.Load(), 0
+		for {
+			select {
+			case <-stop:
+				return
+			case <-time.After(2 * time.Second):
+			}
+			now := c20Progress.Load()
+			if now != last {
+				last, still = now, 0
+				continue
+			}
+			if still++; still < 10 {
+				continue
+			}
+			buf := make([]byte, 4<<20)
+			buf = buf[:runtime.Stack(buf, true)]
+			blocked := 0
+			var witness []string
+			for _, g := range strings.Split(string(buf), "\n\n") {
+				head := g
+				if i := strings.IndexByte(g, '\n'); i >= 0 {
+					head = g[:i]
+				}
+				waiting := false
+				for _, st := range []string{"[sync.Mutex.Lock", "[sync.RWMutex.", "[semacquire", "[chan receive", "[chan send", "[select", "[sync.Cond.Wait"} {
+					waiting = waiting || strings.Contains(head, st)
+				}
+				if waiting && strings.Contains(g, "github.com/sahandsafizadeh/qeep/") {
+					blocked++
+					if len(witness) < 2 {
+						witness = append(witness, g)
+					}
+				}
+			}
+			if blocked >= 2 {
+				fmt.Fprintf(os.Stderr, "DEADLOCK in %s: no library call completed during 10 consecutive looks and %d goroutines are blocked in a synchronisation primitive inside the library:\n\n%s\n", what, blocked, strings.Join(witness, "\n\n"))
+				os.Exit(3)
+			}
+			still = 0
+		}
+	}()
+	return stop
 }
 
 var reRaceFrame = regexp.MustCompile(`^\s+(\S+)\(\)\s*$`)
